@@ -68,6 +68,43 @@ Proof.
   destruct (add_child p c h); simpl; [apply IH|reflexivity|reflexivity].
 Qed.
 
+(* the children of nsn_ch are re-attached to the new seed while nsn_ch's LIVE child list is iterated:
+   add_child only appends a node that is not yet listed, so even when nsn_ch is the new seed itself the
+   iterated list is not changed - Python's iterator sees exactly the snapshot *)
+Lemma kids_add_child_stable ns ch s s' x l :
+  kids s x = l -> In ch l -> add_child ns ch s = HOk s' -> kids s' x = l.
+Proof.
+  intros Hk Hin. unfold add_child.
+  destruct (Z.eqb ch ns); [discriminate|]. destruct (oz_eqb (parent s ns) (Some ch)); [discriminate|].
+  intro E. inversion E; subst s'. clear E.
+  destruct (memz ch (kids (set_parent ch (Some ns) s) ns)) eqn:Em.
+  - rewrite kids_set_parent. exact Hk.
+  - rewrite kids_set_kids. destruct (Z.eqb_spec x ns) as [->|_]; [|rewrite kids_set_parent; exact Hk].
+    exfalso. rewrite kids_set_parent, Hk in Em. apply memz_false in Em. contradiction.
+Qed.
+
+Lemma gen_add_loop_live ns nsn : forall h fuel,
+  (length (kids h nsn) < fuel)%nat ->
+  mfor_live fuel (fun s => kids s nsn)
+           (fun ch (_ : unit) s =>
+              match Node_add_child HG ns ch s with
+              | MOk _ s => MOk (LNext tt) s
+              | MErr dv_e s => MErr dv_e s
+              | MFuel => MFuel
+              end) O tt h
+  = lift (LNext tt) (hfold (add_child ns) (kids h nsn) h).
+Proof.
+  intros h fuel Hf.
+  rewrite (mfor_live_stable (fun s => kids s nsn) _ (kids h nsn) (fun s => kids s nsn = kids h nsn)).
+  - simpl skipn. apply gen_add_loop_lift.
+  - intros s Hs. exact Hs.
+  - intros x v s v' s' Hin Hs Hb. rewrite gen_add_child_eq in Hb.
+    destruct (add_child ns x s) as [s1|e s1|] eqn:Ea; try discriminate.
+    inversion Hb; subst. eapply kids_add_child_stable; eassumption.
+  - reflexivity.
+  - lia.
+Qed.
+
 (* ---- the final dispatch ---- *)
 Definition su_part (su : bool) (s : heap) : mres heap (option Z) :=
   if su
@@ -138,9 +175,11 @@ Ltac run_loop2 fuel ub ch Hf :=
 Theorem gen_reseed_at fuel ns ub cb su h ch :
   chain (fuel_of h) h ns = Some ch ->
   (length ch + 2 <= fuel)%nat ->
+  (forall h1 c1 h', hfold edge_invert (rev ch) h = HOk h1 -> kids h1 ns = [c1] ->
+                    remove_child_plain ns c1 h1 = HOk h' -> (length (kids h' c1) < fuel)%nat) ->
   to_hres (Tree_reseed_at HG fuel ns ub cb su h) = reseed_at ns ub cb su h.
 Proof.
-  intros Hch Hf. unfold Tree_reseed_at, reseed_at.
+  intros Hch Hf Hlive. unfold Tree_reseed_at, reseed_at.
   change (Tree__get_seed_node HG h) with (seed h).
   hsimp. cbv zeta.
   destruct (Z.eqb (seed h) ns).
@@ -152,7 +191,7 @@ Proof.
       change (negb (py_is_empty (@nil Z))) with false. cbv iota.
       run_loop1 fuel h ns ch Hch Hf. cbv iota beta. simpl app.
       run_loop2 fuel ub ch Hf.
-      destruct (hfold edge_invert (rev ch) h) as [h1|e h1|]; simpl hbind; cbv iota; try reflexivity.
+      destruct (hfold edge_invert (rev ch) h) as [h1|e h1|] eqn:Einv; simpl hbind; cbv iota; try reflexivity.
       simpl negb. simpl andb. cbv iota.
       destruct su.
       * destruct (kids h1 ns) as [|c1 [|c2 r]] eqn:Ek1.
@@ -162,8 +201,8 @@ Proof.
         -- change (Z.eqb (py_len [c1]) 1) with true. cbv iota.
            change (py_index [c1] 0) with (Some c1). cbv iota.
            rewrite gen_remove_plain_lift.
-           destruct (remove_child_plain ns c1 h1) as [h'|e h'|]; simpl lift; simpl hbind; cbv iota; try reflexivity.
-           rewrite gen_add_loop_lift.
+           destruct (remove_child_plain ns c1 h1) as [h'|e h'|] eqn:Erm; simpl lift; simpl hbind; cbv iota; try reflexivity.
+           rewrite gen_add_loop_live by (apply (Hlive h1 c1 h' eq_refl Ek1 Erm)).
            destruct (hfold (add_child ns) (kids h' c1) h') as [h2|e h2|]; simpl lift; simpl hbind; cbv iota; try reflexivity.
            rewrite gen_set_seed_node_exact by (rewrite parent_set_parent, Z.eqb_refl; reflexivity).
            exact (tail_gen_eq ub cb true _).
@@ -199,7 +238,7 @@ Proof.
 Qed.
 
 Example exr_runs :
-  to_hres (Tree_reseed_at HG 4 2 false true true exr_heap) = reseed_at 2 false true true exr_heap /\
+  to_hres (Tree_reseed_at HG 6 2 false true true exr_heap) = reseed_at 2 false true true exr_heap /\
   (exists h', reseed_at 2 false true true exr_heap = HOk h' /\ seed h' = 2 /\ parent h' 2 = None /\
               kids h' 2 = [3; 4; 5] /\ elen h' 5 = Some 3584) /\
   to_hres (Tree_suppress_unifurcations__update_bipartitions_False HG exr_heap) = suppress_unifurcations exr_heap /\
